@@ -89,6 +89,26 @@ M = [
 		}
 ''', ''),
  # C04
+ ('C11-hand-rpc-arg-type-mismatch', 'api/rest/restapi.go',
+  '''			"Cluster",
+			"Unpin",
+			pin,
+			&pinObj,''', '''			"Cluster",
+			"Unpin",
+			pin.Cid,
+			&pinObj,'''),
+ ('C11-hand-rpc-reply-type-mismatch', 'api/rest/restapi.go',
+  '''			var pinInfo types.GlobalPinInfo
+			err := api.rpcClient.CallContext(
+				r.Context(),
+				"",
+				"Cluster",
+				"Recover",''', '''			var pinInfo types.PinInfo
+			err := api.rpcClient.CallContext(
+				r.Context(),
+				"",
+				"Cluster",
+				"Recover",'''),
  ('C04-hand-unpindag-breaks-on-error', 'cluster.go',
   '''		err = c.consensus.LogUnpin(ctx, api.PinCid(ci))
 		if err != nil {
